@@ -96,7 +96,10 @@ def run_harness(ctx, scenarios, label, shards=None, race=False, timeout=900):
 
     def one(p):
         out = p + '.tr'
-        pr = subprocess.run([exe, 'cli', '--in', p, '--out', out], cwd=ctx.scratch, stdout=subprocess.PIPE, stderr=subprocess.PIPE, text=True, timeout=timeout)
+        # a shard normally takes well under a second per scenario; a harness that is still running long after that is
+        # stuck in the code under test (run_proc then asks it for its goroutines' stacks)
+        rc, so, se, hung = vlib.run_proc([exe, 'cli', '--in', p, '--out', out], ctx.scratch, max(240, 3 * sum(1 for _ in open(p))) if timeout == 900 else timeout)
+        pr = subprocess.CompletedProcess([exe], rc, so, se)
         return p, out + '.0', pr
     merged = os.path.join(ctx.scratch, label + '.traces')
     racelog = []
@@ -569,10 +572,10 @@ def gen_c20_extra(ctx, thorough):
 
 
 FAM = {
-    'C02': dict(cfg=('H2Client_c02_q.cfg', 'H2Client_c02_t.cfg'), budget=(700, 20000), unit=1, hcfg={}, extra=gen_c02_extra, props={'C02', 'C20:well-formed-response-rejected', 'C12:success-without-complete-response'}),
-    'C07': dict(cfg=('H2Client_c07_q.cfg', 'H2Client_c07_t.cfg'), budget=(700, 20000), unit=13107, hcfg={'srviw': 26214}, extra=gen_c07_extra, props={'C07'}),
-    'C11': dict(cfg=('H2Client_c11_q.cfg', 'H2Client_c11_t.cfg'), budget=(700, 20000), unit=1, hcfg={}, extra=gen_c11_extra, props={'C11'}),
-    'C12': dict(cfg=('H2Client_c12_q.cfg', 'H2Client_c12_t.cfg'), budget=(700, 20000), unit=1, hcfg={}, extra=gen_c12_extra, props={'C12'}),
+    'C02': dict(cfg=('H2Client_c02_q.cfg', 'H2Client_c02_t.cfg'), budget=(700, 6000), unit=1, hcfg={}, extra=gen_c02_extra, props={'C02', 'C20:well-formed-response-rejected', 'C12:success-without-complete-response'}),
+    'C07': dict(cfg=('H2Client_c07_q.cfg', 'H2Client_c07_t.cfg'), budget=(700, 6000), unit=13107, hcfg={'srviw': 26214}, extra=gen_c07_extra, props={'C07'}),
+    'C11': dict(cfg=('H2Client_c11_q.cfg', 'H2Client_c11_t.cfg'), budget=(700, 6000), unit=1, hcfg={}, extra=gen_c11_extra, props={'C11'}),
+    'C12': dict(cfg=('H2Client_c12_q.cfg', 'H2Client_c12_t.cfg'), budget=(700, 6000), unit=1, hcfg={}, extra=gen_c12_extra, props={'C12'}),
 }
 EXTRA_ONLY = {'C14': (gen_c14_extra, {'C14'}), 'C18': (gen_c18_extra, {'C18', 'C02:request-block-undecodable'}), 'C20': (gen_c20_extra, {'C20'})}
 
@@ -608,11 +611,12 @@ def crashed(ctx, props, label):
     """A harness process that the Go runtime killed with the library on the stack.  C12 owns the verdict ("the process
     never panics or deadlocks"); it is confirmed by running that shard of scenarios once more."""
     for p, log in getattr(ctx, 'crashes', []):
-        kind = 'deadlocked' if 'all goroutines are asleep' in log else 'crashed'
+        kind = 'deadlocked' if 'all goroutines are asleep' in log else 'hung' if 'harness process hung' in log else 'crashed'
         if 'C12' not in props:
             raise vlib.Inconclusive('h2v cli %s on %s (C12 owns this verdict):\n%s' % (kind, p, log[-1500:]))
         exe = ctx.harness()
-        pr = subprocess.run([exe, 'cli', '--in', p, '--out', p + '.again'], cwd=ctx.scratch, stdout=subprocess.PIPE, stderr=subprocess.PIPE, text=True, timeout=900)
+        rc2, so2, se2, _h = vlib.run_proc([exe, 'cli', '--in', p, '--out', p + '.again'], ctx.scratch, max(240, 3 * sum(1 for _ in open(p))))
+        pr = subprocess.CompletedProcess([exe], rc2, so2, se2)
         if pr.returncode != 0 and 'github.com/dgrr/http2.' in pr.stderr:
             scen = [json.loads(l) for l in open(p)]
             lines = [l for l in log.splitlines() if 'github.com/dgrr/http2.' in l][:8]
